@@ -6,7 +6,10 @@
 //!   `c07.topoall <ord> J` / `c07.topoallspec <ord> J`  J = [[id,[edge…]]…], all 3^n key assignments
 //!   `c07.resolve <ver> <ord> J` / `c07.resolvespec <ver> <ord> J`
 //!   `c07.resolvespec.f4 …` (true spec; known finding F4) / `c07.resolvespec.f4dev …` (spec with
-//!   the one documented deviation) for scenarios in which F4 can show
+//!   the one documented deviation) for scenarios in which F4 can show = in which the hypothesis
+//!   `F4Free` of theorem `resolve_refines_spec_noF4` fails
+//!   `c07.hyp <ver> <ord> J` → `wf|nowf` + `+f4free|+f4`: the theorems' hypotheses `RoomOk` and `F4Free`
+//!   evaluated on the room (harness: own evaluation; driver: the proven-sound Lean checkers)
 //! The `…spec` operations are answered by `Spec/StateResV2.lean`, the others by the model.
 mod sr;
 
@@ -41,6 +44,10 @@ fn run(req: &str) -> Outcome {
             let Some((out, t3)) = sr::run_topoall(&v) else { return Outcome::bad() };
             Outcome { imp: out, t3 }
         }
+        "c07.hyp" => {
+            let Some(sc) = toks.get(1..).and_then(sr::parse_resolve_args) else { return Outcome::bad() };
+            Outcome::new(sr::hyp_answer(&sc))
+        }
         "c07.resolve" | "c07.resolvespec" | "c07.resolvespec.f4" | "c07.resolvespec.f4dev" => {
             let Some(sc) = toks.get(1..).and_then(sr::parse_resolve_args) else { return Outcome::bad() };
             let rules = sr::rules_of(sc.ver);
@@ -62,13 +69,16 @@ fn both(out: &mut Vec<Req>, op: &str, args: &str, cls: &str) {
 fn emit_resolve(out: &mut Vec<Req>, rng: &mut Rng, sc: &sr::Scenario, cls: &str) {
     let args = format!("{} {} {}", sc.ver, rng.below(8), sc.payload());
     let shape = sr::shape(sc);
-    if sr::f4_affected(sc) {
+    // the hypotheses of the refinement theorems, evaluated by the harness and by the proven-sound Lean
+    // checkers on the same room
+    out.push(Req::new(format!("c07.hyp {args}"), "hyp.model"));
+    if sr::f4_free(sc) {
+        out.push(Req::new(format!("c07.resolve {args}"), format!("{cls}{shape}.model")));
+        out.push(Req::new(format!("c07.resolvespec {args}"), format!("{cls}{shape}.spec")));
+    } else {
         out.push(Req::new(format!("c07.resolve {args}"), format!("{cls}-f4{shape}.model")));
         out.push(Req::new(format!("c07.resolvespec.f4 {args}"), format!("{cls}-f4{shape}.spec")));
         out.push(Req::new(format!("c07.resolvespec.f4dev {args}"), format!("{cls}-f4{shape}.devspec")));
-    } else {
-        out.push(Req::new(format!("c07.resolve {args}"), format!("{cls}{shape}.model")));
-        out.push(Req::new(format!("c07.resolvespec {args}"), format!("{cls}{shape}.spec")));
     }
 }
 
@@ -121,6 +131,10 @@ fn gen(rng: &mut Rng, n: usize, tier: &str) -> Vec<Req> {
     for _ in 0..(n / 10).max(3) {
         let sc = sr::gen_promotion(rng);
         emit_resolve(&mut out, rng, &sc, "promotion");
+    }
+    for _ in 0..(n / 8).max(24) {
+        let sc = sr::gen_sloppy_auth(rng);
+        emit_resolve(&mut out, rng, &sc, "sloppy");
     }
     eprintln!("generator statistics: {stats:?}");
     out
